@@ -8,49 +8,54 @@ namespace Norm
 
 /-! ### File system model (assumption A4: `pathlib`, `glob`, `os.path`) -/
 
-inductive Node
-  | file (name : String)
-  | dir (name : String) (children : List Node)
-deriving Repr, Inhabited
+/-- One entry of the tree below the current directory: its path (components relative to the
+cwd) and whether it is a directory.  A file system is the list of its entries (the harness
+builds it from a real tree, so parents of entries are directory entries). -/
+structure Entry where
+  path : List String
+  isDir : Bool
+deriving Repr, DecidableEq, Inhabited
+
+abbrev FS := List Entry
 
 inductive Kind | file | dir | missing
 deriving Repr, DecidableEq
 
-def Node.name : Node → String
-  | .file n => n
-  | .dir n _ => n
+/-- `Path.exists / is_file / is_dir` of a relative path; `[]` is the cwd itself. -/
+def lookup (fs : FS) (p : List String) : Kind :=
+  if p == [] then .dir else
+  match fs.find? (fun e => e.path == p) with
+  | some e => if e.isDir then .dir else .file
+  | none => .missing
 
-/-- Look a relative path (list of components) up below a list of nodes. -/
-def lookup : List Node → List String → Kind
-  | _, [] => .dir
-  | [], _ :: _ => .missing
-  | .file n :: rest, [c] => if n == c then .file else lookup rest [c]
-  | .file n :: rest, c :: d :: cs => if n == c then .missing else lookup rest (c :: d :: cs)
-  | .dir n ch :: rest, c :: cs => if n == c then lookup ch cs else lookup rest (c :: cs)
+/-- string concatenation through character lists (reducible by the kernel) -/
+def sapp (a b : String) : String := String.ofList (a.toList ++ b.toList)
 
-def childrenOf : List Node → List String → List Node
-  | ns, [] => ns
-  | [], _ :: _ => []
-  | .file _ :: rest, c :: cs => childrenOf rest (c :: cs)
-  | .dir n ch :: rest, c :: cs => if n == c then childrenOf ch cs else childrenOf rest (c :: cs)
-
-def hidden (n : String) : Bool := n.startsWith "."
+def hidden (n : String) : Bool := n.toList.head? == some '.'
 
 /-- `fnmatch(name, "*.[ch]")` for a non-hidden name. -/
-def matchesCH (n : String) : Bool := n.endsWith ".c" || n.endsWith ".h"
+def matchesCH (n : String) : Bool :=
+  let l := n.toList
+  let tail := l.drop (l.length - 2)
+  l.length ≥ 2 && (tail == ['.', 'c'] || tail == ['.', 'h'])
 
-/-- `filter(os.path.isfile, glob.glob(prefix + "/**/*.[ch]", recursive=True))`:
-every non-hidden regular file below the nodes, through non-hidden directories only,
-whose name matches `*.[ch]`.  The order within the result is the order of the tree
+def joinPath : List String → String
+  | [] => ""
+  | [c] => c
+  | c :: cs => sapp c (sapp "/" (joinPath cs))
+
+/-- is `e` a regular file strictly below `dir`, reached through non-hidden names only,
+whose own name matches `*.[ch]` -/
+def globHit (dir : List String) (e : Entry) : Bool :=
+  !e.isDir && dir.isPrefixOf e.path && decide (dir.length < e.path.length) &&
+  (e.path.drop dir.length).all (fun c => !hidden c) &&
+  matchesCH (e.path.getLast?.getD "")
+
+/-- `filter(os.path.isfile, glob.glob(str(dir) + "/**/*.[ch]", recursive=True))` (and the
+relative pattern for `dir = []`): the order within the result is the order of the entries
 (the real order is that of `os.scandir`; results are compared as multisets). -/
-def globCH (pre : String) : List Node → List String
-  | [] => []
-  | .file n :: rest =>
-    (if !hidden n && matchesCH n then [pre ++ n] else []) ++ globCH pre rest
-  | .dir n ch :: rest =>
-    (if hidden n then [] else globCH (pre ++ n ++ "/") ch) ++ globCH pre rest
-
-def joinPath (cs : List String) : String := "/".intercalate cs
+def globCH (fs : FS) (dir : List String) : List String :=
+  (fs.filter (globHit dir)).map (fun e => joinPath e.path)
 
 /-- `pathlib.PurePath.suffix` of the final component. -/
 def suffixOf (name : String) : String :=
@@ -77,27 +82,27 @@ structure SelSt where
 deriving Repr
 
 /-- One iteration of `for item in stack` on an *argument*. -/
-def selStep (root : List Node) (s : SelSt) (a : List String) : SelSt :=
+def selStep (root : FS) (s : SelSt) (a : List String) : SelSt :=
   if s.abort then s else
   match lookup root a with
   | .missing =>
     { s with abort := true,
-             msgs := s.msgs ++ ["Error: '" ++ joinPath a ++ "' no such file or directory"] }
+             msgs := s.msgs ++ [sapp "Error: '" (sapp (joinPath a) "' no such file or directory")] }
   | .file =>
     let name := a.getLast?.getD ""
     if suffixOf name == ".c" || suffixOf name == ".h" then
       { s with files := s.files ++ [joinPath a] }
     else
-      { s with msgs := s.msgs ++ ["Error: '" ++ name ++ "' is not valid C or C header file"] }
-  | .dir => { s with app := s.app ++ globCH (joinPath a ++ "/") (childrenOf root a) }
+      { s with msgs := s.msgs ++ [sapp "Error: '" (sapp name "' is not valid C or C header file")] }
+  | .dir => { s with app := s.app ++ globCH root a }
 
 /-- The whole work-list loop.  Items appended by directory arguments are regular files
 matching `*.[ch]` (the glob result is filtered with `os.path.isfile`), so when the loop
 reaches them it selects each one and appends nothing further.  With no argument the
 initial stack is `glob("**/*.[ch]")` relative to the cwd. -/
-def select (root : List Node) (argv : List (List String)) : Selection :=
+def select (root : FS) (argv : List (List String)) : Selection :=
   match argv with
-  | [] => { files := globCH "" root }
+  | [] => { files := globCH root [] }
   | _ =>
     let s := argv.foldl (selStep root) {}
     if s.abort then { files := [], msgs := s.msgs, abort := true }
